@@ -410,7 +410,9 @@ def check_trace(sym, sc: Scenario, pcode: str, want: set, forced_ids=(), cancell
                 while q is not None:
                     nested_in_alarm = nested_in_alarm or q.name == "Alarm"
                     q = q.parent
-                if run_first_tick == t and not nested_in_alarm:
+                same_text = sum(1 for l2 in lines if l2.name == ln.name and l2.arg == ln.arg)
+                if run_first_tick == t and not nested_in_alarm and same_text == 1:
+                    # (run-log items are matched to method lines by their text: with two identical Watch lines the cancelled one is not identifiable)
                     # (a Watch inside an Alarm body is a new Watch in every alarm invocation: a cancel applies to one of them)
                     # a run of the body begins in tick t: no cancel request for this Watch/Alarm that was offered as
                     # cancellable and accepted may precede it (requests are made before the tick with the same number runs)
